@@ -618,6 +618,51 @@ pub const ORBIT_LIMIT_NPN: usize = 6;
 pub const ORBIT_LIMIT_P: usize = 8;
 
 fn c04(t: &[&str], out: &str) -> R {
+    if t[0] == "canonused" {
+        // what an entry point walks must be the closed sequences for its size
+        let n = us(t[2]);
+        let o: Vec<&str> = out.split_whitespace().collect();
+        if o.len() != 3 || o[0] != "ok" {
+            return Err(format!("canonization of the zero function failed: `{}`", out));
+        }
+        let swaps = parse_nats(o[1]).unwrap();
+        let flips = parse_nats(o[2]).unwrap();
+        let want_swaps = n >= 2 && t[1] != "n";
+        let want_flips = n >= 1 && t[1] != "p";
+        if want_swaps {
+            let fact: usize = (1..=n).product();
+            let mut p: Vec<usize> = (0..n).collect();
+            let mut seen: HashSet<Vec<usize>> = HashSet::new();
+            for s in &swaps {
+                if s + 1 >= n {
+                    return Err(format!("{} walks a swap position {} out of range for n={}", t[1], s, n));
+                }
+                p.swap(*s, s + 1);
+                seen.insert(p.clone());
+            }
+            if seen.len() != fact || p != (0..n).collect::<Vec<_>>() {
+                return Err(format!(
+                    "{}_canonization(n={}) walks {} swaps reaching {} of {} permutations, closed={}",
+                    t[1], n, swaps.len(), seen.len(), fact, p == (0..n).collect::<Vec<_>>()
+                ));
+            }
+        }
+        if want_flips {
+            let mut m = 0usize;
+            let mut seen: HashSet<usize> = HashSet::new();
+            for f in &flips {
+                if *f >= n {
+                    return Err(format!("{} walks a flip position {} out of range for n={}", t[1], f, n));
+                }
+                m ^= 1 << f;
+                seen.insert(m);
+            }
+            if seen.len() != 1 << n || m != 0 {
+                return Err(format!("{}_canonization(n={}) walks a flip sequence that is not a closed Gray cycle", t[1], n));
+            }
+        }
+        return Ok(n >= 2);
+    }
     if t[0] == "canonseq" {
         // closed walk visiting every group element exactly once
         let n = us(t[1]);
